@@ -237,4 +237,80 @@ Section Premises.
                       cons avoid (interiors_state o t) Q1 T1 R1 K Term) as H.
         cbn in H. rewrite Lim1 in H. exact H.
   Qed.
+
+  (** *** what the brute-force path returns: the MaxResults best of the exhaustive scan *)
+  Definition scan_candidate (o : options D) (t : target D) (x : index) (edist : eid -> D) (r : result D) : Prop :=
+    In r (s_results (interiors_state o t)) \/
+    exists e, In e (all_edges x) /\ r = mkres D edist e /\ less (edist e) (o_limit o) = true.
+
+  Theorem brute_is_scan o t x brk edist :
+    (forall e lim, t_upd_edge t e lim = if less (edist e) lim then Some (edist e) else None) ->
+    SubLe o -> o_max_results o <> 1 -> d_eqb ops (o_limit o) (d_zero ops) = false ->
+    exists l, find_edges ops (with_brute o) t x false brk = truncate D o l /\
+      StronglySorted (fun a b => r_less ops a b = true) l /\
+      forall r, In r l <-> scan_candidate o t x edist r.
+  Proof.
+    intros Ee Sl K L0. unfold find_edges, find_edges_from.
+    change (truncate D (with_brute o)) with (truncate D o).
+    destruct (interiors_state_props o t) as (Q1 & T1 & _).
+    assert (Lim1 : s_limit (interiors_state o t) = o_limit o) by (apply interiors_state_limit; left; exact K).
+    destruct (fei_brute o t x brk) as [[_ A]|[(_ & _ & A & _)|(_ & _ & Hb)]].
+    - congruence.
+    - rewrite Lim1 in A. congruence.
+    - cbn in Hb. rewrite Hb. eexists. split; [reflexivity|]. split; [apply (sort_unique_sorted D ops OK)|].
+      assert (T0 : TestedOK D ops edist (interiors_state o t)) by (intros e He; rewrite T1 in He; contradiction).
+      destruct (brute_spec D ops OK o t x edist Ee Sl _ _ _ T0
+                  (EI_init D ops OK o edist (fun e => In e (all_edges x)) (interiors_state o t))) as (EIb & Dnb & Xb).
+      cbn in EIb, Dnb, Xb. intros r. rewrite (sort_unique_in D ops OK), <- in_rev.
+      rewrite (final_set D ops o edist (fun e => In e (all_edges x)) _ _ _ K EIb (proj1 (proj2 Xb)) Dnb).
+      unfold scan_candidate. rewrite Lim1. tauto.
+  Qed.
+
+  (** *** Distance and IsDistanceLess *)
+  Theorem distance_eq_brute o t x edist cdist Vq :
+    SearchPremises (with_max_results D o 1) t x false edist cdist Vq ->
+    Terminates (with_max_results D o 1) t x false -> ErrZero o ->
+    distance ops o t x = distance ops (with_brute o) t x.
+  Proof.
+    intros P Term Ez. unfold distance, find_edge.
+    change (with_max_results D (with_brute o) 1) with (with_brute (with_max_results D o 1)).
+    destruct (opt_eq_brute_main _ t x false edist cdist Vq P Term) as [_ H]. cbn in H.
+    specialize (H Ez).
+    destruct (find_edges ops (with_max_results D o 1) t x false false) as [|a la];
+      destruct (find_edges ops (with_brute (with_max_results D o 1)) t x false false) as [|b lb];
+      cbn in H; try discriminate; [reflexivity|]. injection H as H _. exact H.
+  Qed.
+
+  Theorem is_distance_less_spec straight o t x lim edist cdist Vq :
+    let o' := mkOptions 1 lim straight (o_interiors o) (o_brute o) in
+    SearchPremises o' t x false edist cdist Vq -> Terminates o' t x false ->
+    d_eqb ops lim (d_zero ops) = false -> s_results (interiors_state o' t) = [] ->
+    (forall e, In e (all_edges x) -> 0 <= fst e) ->
+    (is_distance_less ops straight o t x lim = true <-> exists e, In e (all_edges x) /\ less (edist e) lim = true).
+  Proof.
+    cbn. intros P Term L0 R1 Pos. unfold is_distance_less, find_edge.
+    change (with_max_results D (mkOptions 1 lim straight (o_interiors o) (o_brute o)) 1)
+      with (mkOptions 1 lim straight (o_interiors o) (o_brute o)).
+    destruct (opt_within_error_main _ t x false edist cdist Vq P Term eq_refl L0 R1) as [Hnil Hval].
+    cbn in Hnil, Hval.
+    destruct (find_edges ops (mkOptions 1 lim straight (o_interiors o) (o_brute o)) t x false false) as [|r l].
+    - cbn. split; [discriminate|]. intros (e & He & L). rewrite (proj1 Hnil eq_refl e He) in L. discriminate.
+    - destruct (Hval r (or_introl eq_refl)) as [(e & He & -> & L) _]. cbn.
+      split; [intros _; exists e; auto|]. intros _.
+      destruct (fst e <? 0) eqn:E; [apply Z.ltb_lt in E; specialize (Pos e He); lia|reflexivity].
+  Qed.
+
+  (** *** interior results: a target inside an indexed polygon is at distance zero *)
+  Theorem interior_zero_gen o t x old brk s rest :
+    o_interiors o = true -> d_eqb ops (o_limit o) (d_zero ops) = false ->
+    t_containing t = s :: rest -> ZeroSub o ->
+    find_edge ops o t x old brk = mkR (d_zero ops) s (-1).
+  Proof.
+    intros Ei L0 Ec Zs. unfold find_edge, find_edges, find_edges_from, find_edges_internal.
+    cbn [with_max_results o_limit o_interiors o_max_results o_max_error s_limit].
+    rewrite L0, Ei, Ec. cbn [containing_shapes existsb app length Z.of_nat]. cbn [Z.ltb Z.compare Pos.of_succ_nat Pos.compare Pos.compare_cont].
+    cbn [fold_left]. unfold add_result at 1. cbn [o_max_results with_max_results Z.eqb Pos.eqb o_max_error].
+    unfold set_limit. cbn [s_limit r_dist]. unfold ZeroSub in Zs. rewrite Zs.
+    rewrite (proj2 (eqb_spec _ OK _ _) eq_refl). cbn. reflexivity.
+  Qed.
 End Premises.
